@@ -30,7 +30,7 @@ ASSUMPTIONS = ["probe battery is finite (listed in vf/props/c16.py)",
                "overridden-keyword probes place the keyword only at pass-through positions (not under anyOf/oneOf/not/contains/if)"]
 REPORT_COUNTERS = ["histories", "operations", "probes_compared", "objects_probed_after_5plus_later_ops", "op:redefine",
                    "op:redefine_many", "op:remove", "op:extend_override", "op:extend_typechecker", "op:extend_nochange",
-                   "op:create", "op:create_version", "op:create_default_types", "op:validator_types", "op:checks",
+                   "op:create", "op:create_version", "op:extend_version", "op:create_default_types", "op:validator_types", "op:checks",
                    "op:cls_checks", "op:formats_subset"]
 
 TYPE_NAMES = ["array", "boolean", "integer", "null", "number", "object", "string", "any", "thing", "zz-unknown"]
@@ -64,7 +64,7 @@ def shards(tier):
 def floors(tier):
     f = {"histories": 400, "operations": 5000, "probes_compared": 30000, "objects_probed_after_5plus_later_ops": 1000}
     for op in ("redefine", "redefine_many", "remove", "extend_override", "extend_typechecker", "extend_nochange", "create",
-               "create_version", "create_default_types", "validator_types", "checks", "cls_checks", "formats_subset"):
+               "create_version", "extend_version", "create_default_types", "validator_types", "checks", "cls_checks", "formats_subset"):
         f["op:" + op] = 150
     return f
 
@@ -120,8 +120,39 @@ def probe_class(C, fc):
     out = {"meta": jdump(C.META_SCHEMA), "keywords": sorted(C.VALIDATORS),
            "id_of": [str(C.ID_OF({"id": "x", "$id": "y"})), str(C.ID_OF({"id": "x"})), str(C.ID_OF({"$id": "y"})), str(C.ID_OF({}))],
            "types": probe_typechecker(C.TYPE_CHECKER),
-           "battery": [_errors(C, s, i, fc) for s, i in BATTERY]}
+           "battery": [_errors(C, s, i, fc) for s, i in BATTERY],
+           "check_schema": [_check_schema(C, s) for s in CANDIDATES]}
     return out
+
+
+# candidates for check_schema whose verdict hinges on the class's own keyword table / type checker being the one applied
+CANDIDATES = [{"minLength": "three"}, {"properties": 12}, {"items": ({"type": "string"},)}, {"enum": (1, 2)},
+              {"type": "string", "maxLength": 3}, {"type": "nope"}, {"required": "a"}, {"vf-kw": 5}, {"minItems": -1},
+              {"properties": {"a": {"type": 5}}}, {"pattern": 5}, True, [], {"dependencies": {"a": 1}}]
+
+
+def _check_schema(C, schema):
+    try:
+        with warnings.catch_warnings():
+            warnings.simplefilter("ignore")
+            C.check_schema(schema)
+        a = "ok"
+    except X.SchemaError as e:
+        a = "SchemaError:%s:%s" % (e.validator, "/".join(map(str, e.schema_path)))
+    except Exception as e:
+        a = "exc:" + type(e).__name__
+    try:
+        with warnings.catch_warnings():
+            warnings.simplefilter("ignore")
+            jsonschema.validate("abcdef", schema, cls=C)
+        b = "ok"
+    except X.SchemaError:
+        b = "SchemaError"
+    except X.ValidationError as e:
+        b = "ValidationError:%s" % (e.validator,)
+    except Exception as e:
+        b = "exc:" + type(e).__name__
+    return [a, b]
 
 
 def probe_validator(V, insts):
@@ -230,7 +261,7 @@ class State:
 
 def gen_ops(rng):
     kinds = ["redefine", "redefine_many", "remove", "extend_override", "extend_typechecker", "extend_nochange", "create",
-             "create_version", "create_default_types", "validator_types", "validator_types", "checks", "cls_checks",
+             "create_version", "extend_version", "create_default_types", "validator_types", "validator_types", "checks", "cls_checks",
              "formats_subset"]
     ops = []
     for _ in range(rng.randrange(5, 26)):
@@ -330,6 +361,28 @@ def run_history(rec, ops, base_draft):
                             if nrec["vec"]["id_of"] != C["vec"]["id_of"] or nrec["vec"]["meta"] != C["vec"]["meta"]:
                                 rec.violation("extend-lost-attributes", dict(case, step=n, parent=C["label"]), "ID_OF or META_SCHEMA differs from the parent")
                                 return
+                elif kind == "extend_version":
+                    # a versioned child keeps its parent's metaschema (and so takes over the registry entry of that
+                    # metaschema id - existing, intended behaviour: the registry probe is re-recorded); the parent
+                    # class itself, and every other class, must go on behaving as before
+                    C = st.pick(rng, "C")
+                    kw = {"version": "vfx%d_%d" % (op["r"], n)}
+                    how = rng.choice(["permissive-type", "typechecker", "keyword"])
+                    if how == "permissive-type":
+                        kw["validators"] = {"type": lambda validator, types, instance, schema: iter(())}
+                    elif how == "typechecker":
+                        kw["type_checker"] = C["obj"].TYPE_CHECKER.redefine_many(
+                            {"array": type_fn("tuple"), rng.choice(["integer", "string", "object"]): type_fn("always")})
+                    else:
+                        kw["validators"] = {rng.choice(["minLength", "properties", "items", "enum", "required"]): kw_fn("xv%d" % n)}
+                    try:
+                        new = validators.extend(C["obj"], **kw)
+                    except TypeError:
+                        new = None      # documented: classes created with default_types refuse a type_checker
+                    if new is not None:
+                        st.add("C", new, "extend_version[%s](%s)" % (how, C["label"]), extra=C["extra"])
+                        changed = st.objs[0]
+                        assert changed["kind"] == "R"
                 elif kind in ("create", "create_version"):
                     C = st.pick(rng, "C")
                     T = st.pick(rng, "T")
